@@ -1,4 +1,5 @@
 import FeatherModel.Spec.ClassParse
+import FeatherModel.Lemmas.PoolWrite
 
 /-!
 # The independent parser reads back what the framing model writes (every count and length field is exact)
@@ -275,5 +276,90 @@ theorem poolEntry_entryBytes (e : Entry) (h : entryFits e) (r : Bytes) :
   | package n =>
     have e1 : entryBytes (.package n) ++ r = 20 :: (be16 n ++ r) := by simp [entryBytes]
     rw [e1]; exact pe_package (u16_be16 _ h _)
+
+/-! ## the constant pool and the class file -/
+
+theorem pool_done (fuel idx : Nat) (bs : Bytes) : pool fuel idx idx bs = some ([], bs) := by
+  cases fuel <;> simp [pool]
+
+theorem pool_step {fuel idx count : Nat} {e : Entry} {es : List Entry} {bs b1 b2 : Bytes} (hlt : idx < count)
+    (h1 : poolEntry bs = some (e, b1)) (h2 : pool fuel (idx + slots e) count b1 = some (es, b2)) :
+    pool (fuel + 1) idx count bs = some (e :: es, b2) := by
+  have a : ¬ idx = count := by omega
+  have b : ¬ idx > count := by omega
+  simp only [pool, a, b, if_false, h1, h2]
+
+/-- `constant_pool_count` and the two-slot rule are what the parser needs to find the end of the pool -/
+theorem pool_entries (es : List Entry) (hf : ∀ e ∈ es, entryFits e) (r : Bytes) :
+    ∀ (fuel idx : Nat), es.length ≤ fuel →
+      pool fuel idx (idx + (es.map slots).sum) (es.flatMap entryBytes ++ r) = some (es, r) := by
+  induction es with
+  | nil => intro fuel idx _; simp only [List.map_nil, List.sum_nil, Nat.add_zero]; exact pool_done fuel idx _
+  | cons e es ih =>
+    intro fuel idx hfuel
+    cases fuel with
+    | zero => simp at hfuel
+    | succ fuel =>
+      have e1 : (e :: es).flatMap entryBytes ++ r = entryBytes e ++ (es.flatMap entryBytes ++ r) := by simp
+      have hs := PoolWrite.slots_pos e
+      have e2 : idx + ((e :: es).map slots).sum = (idx + slots e) + (es.map slots).sum := by
+        simp only [List.map_cons, List.sum_cons]; omega
+      rw [e1, e2]
+      exact pool_step (by omega) (poolEntry_entryBytes e (hf e List.mem_cons_self) _)
+        (ih (fun e' he' => hf e' (List.mem_cons_of_mem _ he')) fuel (idx + slots e) (by simp at hfuel; omega))
+
+theorem classFile_step {minor major count access this super ni nf nm na : Nat} {entries : List Entry}
+    {ifs : List Nat} {fields methods : List Member} {as : List Attr} {bs b1 b2 b3 b4 b5 b6 b7 b8 b9 : Bytes}
+    (h1 : row 3 bs = some ([minor, major, count], b1)) (h2 : pool count 1 count b1 = some (entries, b2))
+    (h3 : row 4 b2 = some ([access, this, super, ni], b3)) (h4 : row ni b3 = some (ifs, b4))
+    (h5 : u16 b4 = some (nf, b5)) (h6 : members nf b5 = some (fields, b6))
+    (h7 : u16 b6 = some (nm, b7)) (h8 : members nm b7 = some (methods, b8))
+    (h9 : u16 b8 = some (na, b9)) (h10 : attrs na b9 = some (as, [])) :
+    classFile (0xca :: 0xfe :: 0xba :: 0xbe :: bs) =
+      some ⟨minor, major, count, entries, access, this, super, ifs, fields, methods, as⟩ := by
+  simp only [classFile, h1, h2, h3, h4, h5, h6, h7, h8, h9, h10]
+
+/-- every count and index of the class image fits its field; `constant_pool_count` is one more than the slots used -/
+def classFits (c : ClassImg) : Prop :=
+  c.minor ≤ 65535 ∧ c.major ≤ 65535 ∧ c.poolCount ≤ 65535 ∧ c.poolCount = 1 + (c.poolEntries.map slots).sum ∧
+  (∀ e ∈ c.poolEntries, entryFits e) ∧
+  c.access ≤ 65535 ∧ c.thisIdx ≤ 65535 ∧ c.superIdx ≤ 65535 ∧ c.interfaces.length ≤ 65535 ∧
+  (∀ x ∈ c.interfaces, x ≤ 65535) ∧
+  c.fields.length ≤ 65535 ∧ (∀ m ∈ c.fields, memberFits m) ∧
+  c.methods.length ≤ 65535 ∧ (∀ m ∈ c.methods, memberFits m) ∧
+  c.attrs.length ≤ 65535 ∧ (∀ a ∈ c.attrs, a.1 ≤ 65535 ∧ a.2.length ≤ 4294967295)
+
+theorem entries_le_count {es : List Entry} : es.length ≤ (es.map slots).sum := by
+  induction es with
+  | nil => simp
+  | cons e es ih => have := PoolWrite.slots_pos e; simp only [List.length_cons, List.map_cons, List.sum_cons]; omega
+
+/-- **the whole file reads back**: an independent parser that trusts `constant_pool_count`, every count and every
+`attribute_length` consumes the file exactly and returns the image that was written -/
+theorem classFile_classBytes (c : ClassImg) (h : classFits c) : classFile (classBytes c) = some c := by
+  obtain ⟨h1, h2, h3, h4, h5, h6, h7, h8, h9, h10, h11, h12, h13, h14, h15, h16⟩ := h
+  have e : classBytes c = 0xca :: 0xfe :: 0xba :: 0xbe ::
+      ([c.minor, c.major, c.poolCount].flatMap u16b ++ (c.poolEntries.flatMap entryBytes ++
+      ([c.access, c.thisIdx, c.superIdx, c.interfaces.length].flatMap u16b ++ (c.interfaces.flatMap u16b ++
+      (u16b c.fields.length ++ (c.fields.flatMap memberBytes ++ (u16b c.methods.length ++
+      (c.methods.flatMap memberBytes ++ (u16b c.attrs.length ++ attrsBytes c.attrs))))))))) := by
+    simp [classBytes, membersBytes]
+  rw [e]
+  have ha := attrs_attrsBytes c.attrs h16 []
+  rw [List.append_nil] at ha
+  have hp := pool_entries c.poolEntries h5 ([c.access, c.thisIdx, c.superIdx, c.interfaces.length].flatMap u16b ++
+      (c.interfaces.flatMap u16b ++ (u16b c.fields.length ++ (c.fields.flatMap memberBytes ++
+      (u16b c.methods.length ++ (c.methods.flatMap memberBytes ++ (u16b c.attrs.length ++ attrsBytes c.attrs)))))))
+    c.poolCount 1 (by have := @entries_le_count c.poolEntries; omega)
+  rw [← h4] at hp
+  have := classFile_step
+    (row_u16bs [c.minor, c.major, c.poolCount]
+      (by intro x hx; simp at hx; rcases hx with rfl | rfl | rfl <;> assumption) _)
+    hp
+    (row_u16bs [c.access, c.thisIdx, c.superIdx, c.interfaces.length]
+      (by intro x hx; simp at hx; rcases hx with rfl | rfl | rfl | rfl <;> assumption) _)
+    (row_u16bs c.interfaces h10 _) (u16_u16b _ h11 _) (members_bytes _ h12 _) (u16_u16b _ h13 _)
+    (members_bytes _ h14 _) (u16_u16b _ h15 _) ha
+  rw [this]
 
 end ClassParse
